@@ -69,6 +69,8 @@ def obligations(pid, tier, only=None, cfgs=None):
     for c in C.CONFIGS:
         if cfgs and c.name not in cfgs:
             continue
+        if pid == 'C17' and c.name not in ('sse2', 'avx2', 'avx512f'):
+            continue      # the scalar overloads do not depend on the batch architecture; three flag sets are compiled
         l = []
         for o in O.OPS:
             if pid not in o.props:
@@ -261,4 +263,8 @@ def c06(a):
     return run('C06', 'proof', a, 'one obligation per (conversion entry point, From, To, configuration): every result lane / memory element equals static_cast<To> of the corresponding source lane as an IR conversion node (sitofp/uitofp/fptosi/fptoui/cvtt/sext/zext/trunc/fpext/fptrunc; class P) or a reviewed emulation (class I); load_as/store_as additionally satisfy the footprint and alignment rules of C04; bitwise_cast is the identity on the register bytes')
 
 
-REGISTRY = {'C06': c06, 'C04': c04, 'C05': c05, 'C01': c01, 'C02': c02, 'C03': c03, 'C07': c07, 'C08': c08, 'C09': c09}
+def c17(a):
+    return run('C17', 'proof', a, 'one obligation per (scalar overload, element type[, literal count]): the scalar overload is compiled and its result term must equal the SAME spec form / reviewed template the batch kernels are matched against in C01-C03, C07, C08 -- scalar/batch agreement then follows by transitivity for all operand values')
+
+
+REGISTRY = {'C17': c17, 'C06': c06, 'C04': c04, 'C05': c05, 'C01': c01, 'C02': c02, 'C03': c03, 'C07': c07, 'C08': c08, 'C09': c09}
